@@ -559,6 +559,8 @@ class PyEval:
             raise Raised("AttributeError: 'NoneType' object has no attribute %r" % name, loc)
         if isinstance(o, _re.Match) and name in ('group', 'groups', 'start', 'end'):
             return getattr(o, name)
+        if name in getattr(o, 'pyeval_native', ()):
+            return getattr(o, name)          # an object the checker hands to the program (a file being written, ...)
         raise AnalysisError('abstract evaluation: attribute %s of %r at %s' % (name, o, loc))
 
     def expr(self, n, env, mod, cls, depth):
